@@ -11,7 +11,7 @@ GEN_T = {"budget": 3, "stmts": 2, "atoms": 1, "maxlist": 1}
 GEN_ATOMS_Q = {"budget": 1, "stmts": 2, "atoms": 4, "maxlist": 2}
 GEN_ATOMS_T = {"budget": 2, "stmts": 1, "atoms": 8, "maxlist": 2}
 # expression palette: leaves are small fixed expressions (ident, a={}, function(){}, [a], (a), -a, a++, a.p, a(), multi-line backtick string, a+a, "s")
-PAL_Q = {"budget": 1, "stmts": 1, "palette": 12, "palettemask": 1 + 2 + 32 + 512 + 1024, "maxlist": 1, "nofunc": 1}
+PAL_Q = {"budget": 1, "stmts": 1, "palette": 12, "palettemask": 1 + 2 + 32 + 512 + 1024 + 2048, "maxlist": 1, "nofunc": 1}
 PAL_T = {"budget": 1, "stmts": 1, "palette": 12, "maxlist": 1, "nofunc": 1}
 GEN_ASSUME = [
     "programs: every syntax tree of the subset within the node budget (internal nodes <= 'budget', <= 'stmts' top-level statements, lists <= 'maxlist' elements, 'atoms' atom kinds), produced by the generator of DESIGN.md §4.2; tree shape, separators and parenthesisation explored exhaustively by forking",
@@ -43,7 +43,6 @@ CHECKS = {
         ],
     },
     "C14": {
-        "fresh_process": True,
         "assumptions": SCRIPT_ASSUME + GEN_ASSUME + [
             "goroutine schedules are not explored (the executor has no scheduler). Reduction: jobs that only write memory they allocated themselves and only read shared memory that nobody writes are data-race-free and equal to their sequential runs; the premise is decided here: a confinement monitor reports every store, map update or in-place append that targets package-level state of xjs (frozen after package initialisation), a builder after configuration, or a tree during compilation",
             "sequential histories: job A (default) / job B (registered operators at a solver-quantified level, interceptors, tolerant+smart modes) in orders ABA and BAB; one builder building parsers for two buffers alternately and two parsers alive at once; one tree compiled compact/pretty/with map repeatedly and one compiler object reused",
@@ -52,7 +51,8 @@ CHECKS = {
         "runs": [
             {"harnesses": [H + "ZZH14aJobs"], "flags": VLQ_REDIRECT, "quick": {"T": 1}, "thorough": {"T": 2}},
             {"harnesses": [H + "ZZH14bBuilderReuse"], "flags": VLQ_REDIRECT, "quick": {"T": 1, "T1": 0}, "thorough": {"T": 2, "T1": 0}},
-            {"harnesses": [H + "ZZH14cCompile"], "flags": VLQ_REDIRECT, "quick": dict(GEN_Q, budget=1, trivia=1), "thorough": dict(GEN_Q, trivia=1)},
+            # (no VLQ stand-in here: positions are concrete, the real codec runs under the confinement monitor)
+            {"harnesses": [H + "ZZH14cCompile"], "quick": dict(GEN_Q, budget=1, trivia=1), "thorough": dict(GEN_Q, trivia=1)},
         ],
     },
     "C02": {
@@ -129,7 +129,7 @@ CHECKS = {
         ],
         "runs": [
             {"harnesses": [H + "ZZH8SourceMap"], "flags": VLQ_REDIRECT, "quick": dict(GEN_Q, budget=1, atoms=2, concretepos=0, pretty=0), "thorough": dict(GEN_Q, atoms=2, concretepos=0, pretty=0)},
-            {"harnesses": [H + "ZZH8SourceMap"], "flags": VLQ_REDIRECT, "quick": dict(GEN_Q, budget=1, atoms=2, concretepos=0, pretty=1), "thorough": dict(GEN_Q, atoms=2, concretepos=0, pretty=1)},
+            {"harnesses": [H + "ZZH8SourceMap"], "flags": VLQ_REDIRECT, "quick": dict(GEN_Q, budget=1, atoms=2, concretepos=0, pretty=1, indents=4), "thorough": dict(GEN_Q, atoms=2, concretepos=0, pretty=1, indents=4)},
             {"harnesses": [H + "ZZH8SourceMap"], "flags": VLQ_REDIRECT, "quick": dict(GEN_Q, budget=1, concretepos=0, pretty=1, trivia=1, triviakinds=5), "thorough": dict(GEN_Q, concretepos=0, pretty=1, trivia=1, triviakinds=3)},
             # leaves from the expression palette (signs, multi-line backtick string, object value ...)
             {"harnesses": [H + "ZZH8SourceMap"], "flags": VLQ_REDIRECT, "quick": dict(PAL_Q, concretepos=0, pretty=0), "thorough": dict(PAL_T, concretepos=0, pretty=0)},
@@ -182,6 +182,8 @@ CHECKS = {
         ],
         "runs": [
             {"harnesses": [H + "ZZH5aGrouping"], "quick": {"ops": 2}, "thorough": {"ops": 3}},
+            # the same after an unrelated builder (same dynamic ids, other levels) was used in the process
+            {"harnesses": [H + "ZZH5aGrouping"], "quick": {"ops": 2, "prelude": 1}, "thorough": {"ops": 2, "prelude": 1}},
             {"harnesses": [H + "ZZH5bTokenTypes", H + "ZZH5cDuplicates"], "quick": {"regs": 3}, "thorough": {"regs": 4}},
         ],
     },
@@ -210,6 +212,7 @@ CHECKS = {
             {"harnesses": [H + "ZZH12TruncateIncomplete"], "flags": VLQ_REDIRECT, "quick": GEN_Q, "thorough": GEN_T},
             # general single-token deletion, invalidity decided by the permissive reference recogniser R3
             {"harnesses": [H + "ZZH12DeleteAny"], "flags": VLQ_REDIRECT, "quick": dict(GEN_Q, budget=1), "thorough": dict(GEN_Q, stmts=1)},
+            {"harnesses": [H + "ZZH12DeleteAny"], "flags": VLQ_REDIRECT, "quick": {"budget": 0, "stmts": 2, "palette": 12, "nofunc": 1}, "thorough": {"budget": 0, "stmts": 3, "palette": 12, "nofunc": 1}},
             {"harnesses": [H + "ZZH12DeleteAny"], "flags": VLQ_REDIRECT, "quick": dict(GEN_Q, stmts=1, exprstmtonly=1, nofunc=1, binlevels=3), "thorough": dict(GEN_Q, stmts=2, exprstmtonly=1, nofunc=1)},
             # statements ending in object/function values, groups, calls ... fused with the next one
             {"harnesses": [H + "ZZH12Fuse", H + "ZZH12TruncateIncomplete"], "flags": VLQ_REDIRECT,
